@@ -31,6 +31,8 @@ pub struct Case {
     pub max_active: u8,
     pub max_total: u8,
     pub timeout_ms: u32,
+    #[serde(default)]
+    pub handshake_errors: bool,
     pub ops: Vec<Op>,
     /// after the script: end every connection, wait, then offer a fresh client
     pub check_recovery: bool,
@@ -63,8 +65,8 @@ impl Check for C17 {
             1 => any::<u8>().prop_map(|k| Op::ServerDrop { k }),
             1 => any::<u8>().prop_map(|k| Op::Kill { k }),
         ];
-        (any::<u64>(), 1u8..7, 1u8..9, prop_oneof![Just(2000u32), Just(5000u32), Just(20000u32)], proptest::collection::vec(op, 4..tier.pick(120, 400)), prop_oneof![1 => Just(true), 2 => Just(false)])
-            .prop_map(|(seed, max_active, max_total, timeout_ms, ops, check_recovery)| Case { seed, max_active, max_total, timeout_ms, ops, check_recovery })
+        (any::<u64>(), 1u8..7, 1u8..9, prop_oneof![Just(2000u32), Just(5000u32), Just(20000u32)], any::<bool>(), proptest::collection::vec(op, 4..tier.pick(120, 400)), prop_oneof![1 => Just(true), 2 => Just(false)])
+            .prop_map(|(seed, max_active, max_total, timeout_ms, handshake_errors, ops, check_recovery)| Case { seed, max_active, max_total, timeout_ms, handshake_errors, ops, check_recovery })
             .boxed()
     }
 
@@ -77,7 +79,7 @@ impl Check for C17 {
     }
 
     fn rule(&self) -> String {
-        "case = World with a Server whose max_active_connections is 1..6 and max_total_connections 1..8 (either may bind first), enable_handshake_errors on, and a generated script: real Clients started at arbitrary moments on links with latency 0..300 ms (many SYNs before any ACK: overlapping handshakes), raw peers that send a valid SYN and never answer or answer later, client / server disconnect() and disconnect_now(), Server::drop, clients silenced until the server times them out, ticks of 0..25 s; optionally everything is then ended and, after the 20 s linger and the 22 s handshake budget, a fresh client is offered. Oracle after every server step: addresses between Connect and their terminal event (or drop) that the server still reports as active (not closing) number <= max_active_connections; addresses the server still tracks (Server::client() returns them) and whose connection has not ended number <= max_total_connections; every refusal of a compatible request is HandshakeError(ServerFull) and the real client reports Error(ServerFull); the fresh client offered after everything ended connects within 5 s. Non-trivial = more clients were offered than a limit admits and at least two handshakes overlapped. Distinct = distinct serialised case.".into()
+        "case = World with a Server whose max_active_connections is 1..6 and max_total_connections 1..8 (either may bind first), enable_handshake_errors on or off, and a generated script: real Clients started at arbitrary moments on links with latency 0..300 ms (many SYNs before any ACK: overlapping handshakes), raw peers that send a valid SYN and never answer or answer later, client / server disconnect() and disconnect_now(), Server::drop, clients silenced until the server times them out, ticks of 0..25 s; optionally every established connection is then dropped, every client silenced and, after 25 s (the 20 s linger, the 22 s handshake budget of abandoned attempts), a fresh client is offered. Oracle after every server step: addresses between Connect and their terminal event (or drop) that the server still reports as active (not closing) number <= max_active_connections; addresses the server still tracks (Server::client() returns them) and whose connection has not ended number <= max_total_connections; every refusal of a compatible request is HandshakeError(ServerFull) and the real client reports Error(ServerFull); the fresh client offered after everything ended connects within 5 s. Non-trivial = more clients were offered than a limit admits and at least two handshakes overlapped. Distinct = distinct serialised case.".into()
     }
 
     fn assumptions(&self) -> Vec<String> {
@@ -90,7 +92,7 @@ impl Check for C17 {
 
     fn run(&self, c: &Case) -> CaseResult {
         let mut classes: Vec<&'static str> = Vec::new();
-        let cfg = ServerCfg { max_total: c.max_total as u32, max_active: c.max_active as u32, handshake_errors: true, ep: EpCfg { active_timeout_ms: c.timeout_ms, keepalive_interval_ms: 1000, ..EpCfg::default() } };
+        let cfg = ServerCfg { max_total: c.max_total as u32, max_active: c.max_active as u32, handshake_errors: c.handshake_errors, ep: EpCfg { active_timeout_ms: c.timeout_ms, keepalive_interval_ms: 1000, ..EpCfg::default() } };
         let mut w = World::new(c.seed, &cfg);
         let mut m = Model { connected: HashSet::new(), ended: HashSet::new(), seen_events: 0, seen_api_drop: HashSet::new() };
         let mut real: Vec<usize> = Vec::new();
@@ -276,9 +278,10 @@ impl Check for C17 {
         }
         // ---- recovery -------------------------------------------------------------------------------
         if c.check_recovery {
-            // end everything: drop what the server still has, silence all clients
+            // end everything: drop the connections that were established, silence all clients; handshakes
+            // that never completed must expire on their own within the 22 s budget
             for a in all_addrs.clone() {
-                if w.server_has_client(&a) {
+                if w.server_has_client(&a) && (m.connected.contains(&a) || m.ended.contains(&a)) {
                     if let Some(server) = w.server.as_mut() {
                         server.drop(&a);
                     }
